@@ -356,7 +356,14 @@ fn conv_integer(tier: Tier) -> Vec<Case> {
                 if c.x[0] > 1 && (wdt == Dt::I8 || (zn != "zero points absent" && zn != "x_zero_point scalar")) {
                     feats.push("batch > 1 with w_zero_point or int8 weights");
                 }
-                case.class = if feats.is_empty() { "plain".to_string() } else { feats.join("; ") };
+                // SAME_LOWER changes the geometry of every window: it is the discriminating feature on its own
+                case.class = if c.auto_pad == Some("SAME_LOWER") {
+                    "auto_pad SAME_LOWER".to_string()
+                } else if feats.is_empty() {
+                    "plain".to_string()
+                } else {
+                    feats.join("; ")
+                };
                 case.vclass = String::new();
                 out.push(case);
             }
